@@ -845,7 +845,7 @@ def c09(r):
               "order of the model (%s) is forced on real goroutines through the blocking gate hook and the hook trace is folded through the "
               "protocol by Trace_Cache; every call sequence of length <= %d over an alphabet of 10 calls (3 years incl. a leap-11 year, month "
               "walking across years, two invalid calls that panic and are recovered) is executed in one process and each result compared with "
-              "its reference; each of 16 calls is also made as the very first library call of a fresh process and compared with itself warm; a -race build runs 16 goroutines of mixed calls plus rounds of 8 goroutines reading one fresh shared object, "
+              "its reference; each of 16 calls is also made as the very first library call of a fresh process and compared with itself warm; a battery of 15 000 table lookups and conversions is executed by four processes in four different orders and their per-family digests must agree; a -race build runs 16 goroutines of mixed calls plus rounds of 8 goroutines reading one fresh shared object, "
               "race reports become events that no action accepts. Every public non-setter method of 21 object types is called twice on sample "
               "objects with a digest of all accessors of the receiver before and after (a call must not change its receiver and must repeat its "
               "result); one letter of the history alphabet writes garbage through every setter of every object the accessors hand out. Session.tla specifies the whole mutable state a client can see (date objects with "
@@ -880,6 +880,21 @@ def c09(r):
     # cold start: each of 16 calls as the very first library call of its own process, then again warm
     ch_c = r.drive("c09cold", maxlines=0, shards=16)
     r.validate("Trace_Cache", ch_c)
+    # the same battery in four processes, four orders; the plan only ASSEMBLES their reports into one event for TLC
+    ch_o = r.drive("c09orders", maxlines=0, shards=4)
+    procs = []
+    for cfile in ch_o:
+        for line in open(cfile, encoding="utf-8"):
+            e = json.loads(line)
+            procs.append({"mode": e["mode"], "fam": e["fam"]})
+    of2 = os.path.join(r.dir, "c09orders.merged.ndjson")
+    write_lines(of2, [json.dumps({"ev": "C09Orders", "procs": procs}, ensure_ascii=False)])
+    r.drivers[of2] = r.drivers.get(ch_o[0])
+    r.validate("Trace_Cache", [of2])
+    def ord_mut(e):
+        e["procs"][2]["fam"][0][1] = "0" * 16
+        return True
+    r.negctl("Trace_Cache", of2, {"C09Orders": [(ord_mut, "C09.result.independent-of-call-order")]}, per_kind=1)
     # totality of the computation under the lock
     ch_t = r.drive("c09total", maxlines=0, shards=8)
     r.validate("Trace_Cache", ch_t)
